@@ -45,13 +45,18 @@ func (r *Request) Split(cluster protocol.Cluster) (
 	error,
 ) {
 	messages := []protocol.Message{}
-	topicsMessage := Request{}
+	topicsMessage := Request{
+		IncludeSynonyms:      r.IncludeSynonyms,
+		IncludeDocumentation: r.IncludeDocumentation,
+	}
 
 	for _, resource := range r.Resources {
 		// Split out broker requests to separate brokers
 		if resource.ResourceType == resourceTypeBroker {
 			messages = append(messages, &Request{
-				Resources: []RequestResource{resource},
+				Resources:            []RequestResource{resource},
+				IncludeSynonyms:      r.IncludeSynonyms,
+				IncludeDocumentation: r.IncludeDocumentation,
 			})
 		} else {
 			topicsMessage.Resources = append(
